@@ -45,9 +45,19 @@ def attribute(run, line, verdict):
         return "C01"
     # unfinished run (deadlock / stuck / budget / crash): look at what is pending
     if scn in ("migrate", "migrace"):
+        created0 = {e["u"] for e in evs if e.get("e") == "Create"}
+        fin0 = {e["u"] for e in evs if e.get("e") in ("Finish", "Exit")}
+        xj0 = [e for e in evs if e.get("e") in ("XJoinCall", "FinalizeCall")]
+        xr0 = [e for e in evs if e.get("e") in ("XJoinRet", "FinalizeRet")]
+        if not verdict.startswith("crash") and created0 and created0 <= fin0 and len(xj0) > len(xr0):
+            return "C06"          # every unit ran to completion; the stream join / finalize does not return
         return "C13"
     if scn == "switch":
         return "C11"
+    if scn == "xjoin":
+        return "C06"
+    if scn == "cancelnew":
+        return "C12+C03"          # a cancelled target must release its joiner: clause of both properties
     pend_join = None
     for e in evs:
         if e.get("e") in ("JoinCall", "FreeCall"):
@@ -102,6 +112,8 @@ def run_exec(pid, tier, seed, emphasis, scns=("exec",)):
             for nes in (0, 1, 2):
                 if scn == "migrace" and (nes < 2 or cfg):
                     continue
+                if scn == "xjoin" and (nes < 1 or cfg == 4):
+                    continue
                 for off in range(0, n, per):
                     jobs.append(dict(exe=exe, scn=scn, seed0=seed * 1000000 + emphasis * 100000 + 1 + off,
                                      count=min(per, n - off), opts=("nes=%d" % nes, "cfg=%d" % cfg),
@@ -123,7 +135,7 @@ def run_exec(pid, tier, seed, emphasis, scns=("exec",)):
         if v.startswith("broken"):
             raise vlib.Broken("driver reported %s in %s" % (v, vlib.run_key(r)))
         p = attribute(r, None, v)
-        if p == pid:
+        if pid in p.split("+"):
             chk.violation(vlib.run_key(r) + ":" + v, "run ended with %s (progress / crash verdict attributed to %s)" % (v, p),
                           replay_content="\n".join(json.dumps(e) for e in r) + "\n")
         else:
@@ -144,7 +156,7 @@ def run_exec(pid, tier, seed, emphasis, scns=("exec",)):
         m = re.search(r"at record (\d+)", what)
         line = int(m.group(1)) if m else None
         p = attribute(bad, line, "done")
-        if p == pid:
+        if pid in p.split("+"):
             chk.violation(key, what + " (attributed to %s)" % p, replay_path=rp)
         else:
             others[p] = others.get(p, 0) + 1
